@@ -276,8 +276,16 @@ func ConstPairOf(key string, want func(id int) bool) (int, string, bool) {
 		return 0, "", false
 	}
 	for _, pr := range [][2]string{{l, r}, {r, l}} {
+		// one whole hole (possibly case-mapped or otherwise transformed as a whole) against a non-empty constant
+		h := pr[0]
+		if len(h) < 4 || h[0] != 0 || h[len(h)-1] != 0 || strings.Count(h, "\x00") != 2 {
+			continue
+		}
 		var id int
-		if n, _ := fmt.Sscanf(pr[0], "\x00%d|\x00", &id); n == 1 && pr[0] == fmt.Sprintf("\x00%d|\x00", id) && pr[1] != "" && !strings.Contains(pr[1], "\x00") && want(id) {
+		if n, _ := fmt.Sscanf(h[1:], "%d|", &id); n != 1 {
+			continue
+		}
+		if pr[1] != "" && !strings.Contains(pr[1], "\x00") && want(id) {
 			return id, pr[1], true
 		}
 	}
